@@ -148,6 +148,8 @@ namespace occa {
       if (buffer) delete buffer;
 
       buffer = makeBuffer();
+      // The pool frees its buffer itself: keep it out of the device's list of buffers
+      modeDevice->removeMemoryRef(buffer);
       buffer->malloc(alignedBytes);
       size = alignedBytes;
 
@@ -163,6 +165,8 @@ namespace occa {
       packing the space in the process
       */
       modeBuffer_t* newBuffer = makeBuffer();
+      // The pool frees its buffer itself: keep it out of the device's list of buffers
+      modeDevice->removeMemoryRef(newBuffer);
       newBuffer->malloc(alignedBytes);
 
       modeDevice->bytesAllocated += alignedBytes;
@@ -279,6 +283,8 @@ namespace occa {
 
       /*Make a new buffer*/
       modeBuffer_t* newBuffer = makeBuffer();
+      // The pool frees its buffer itself: keep it out of the device's list of buffers
+      modeDevice->removeMemoryRef(newBuffer);
       newBuffer->malloc(newReserved);
 
       modeDevice->bytesAllocated += newReserved;
